@@ -29,12 +29,14 @@ def ctor_fn(case, wit):
     """Order constructor grid: what must be refused is refused (by the constructor or at the latest
     by the market), everything else is accepted."""
     from ..common import Violation
+    import random as _random
     from pams.market import Market
+    from pams.simulator import Simulator as _Simulator
     from pams.order import LIMIT_ORDER, MARKET_ORDER, Order
     kind, price, volume, ttl = case
     must_reject = volume <= 0 or (kind == "L" and price is None) or (kind == "M" and price is not None) or (ttl is not None and ttl < 0)
     unspecified = ttl == 0 or (price is not None and price <= 0)
-    m = Market(0, None, None, "m")
+    m = Market(0, _random.Random(0), _Simulator(prng=_random.Random(1)), "m")
     m.setup({"tickSize": 1.0, "marketPrice": 100.0})
     m._update_time(100.0)
     try:
